@@ -49,7 +49,7 @@ def pick_map(rng, kinds=('plain', 'wide', 'rec', 'packed'), h=0):
         st['maxbits'] = rng.choice([1, 2, 7, 8, 9, 15, 16, 17, 24, 33])
         st['sentinel'] = None
     elif kind == 'rec':
-        nf = rng.choice([2, 3, 4])
+        nf = rng.choice([2, 3, 4, 2, 3, 4, 2, 3, 4, 1])       # (a record array with a single field is legal too)
         names = ['a', 'b', 'c', 'd'][:nf]
         st['fields'] = [(n, rng.choice(['f4', 'f8', 'i4', 'i8', 'i2', 'u2'])) for n in names]
         st['primary'] = rng.choice(names)
